@@ -21,17 +21,17 @@ def c1(ctx):
 
 def c3(ctx):
     serial.writer_item_loop(ctx, serial.BASE_SERIALIZE, notes_exempt=False)
-    serial.reader_multi(ctx)
+    serial.reader_multi(ctx, 'sm')
 
 
 def c5(ctx):
     serial.str_is_serialize(ctx)
     serial.layout(ctx)
-    serial.serializer_raw_text(ctx)
+    serial.serializer_raw_text(ctx, 'sm')
 
 
 def c4(ctx):
-    serial.null_sweep(ctx)
+    serial.null_sweep(ctx, 'sm')
 
 
 CLAUSES = [
